@@ -200,6 +200,10 @@ def gen_parseval(draw, tier="quick", classes=None):
             case["dim0"] = draw(st.sampled_from(dims))
     if spec["cls"] in gens.HANKEL_SPECTRUM and draw(st.sampled_from([True, False, False])):
         case["other_hankel"] = draw(st.sampled_from([{"N": 12, "h": 0.1}, {"N": 30, "h": 0.05}, {"a": 0, "b": 1}]))
+    if spec["cls"] not in DIM_BOUND_CLASSES and spec["dim"] < gens.max_valid_dim(spec["cls"]) and spec["dim"] < 3 and not case.get("dim0") \
+            and draw(st.sampled_from([True, False, False])):
+        # a dimension change that the model rejects (the ratio 1 of the new axis lies outside user-restricted anis bounds)
+        case["rejected_dim"] = True
     return case
 
 
@@ -288,6 +292,16 @@ def _ctx(case):
         c.tags["dim0"] = dim0
     else:
         c.model = lib(build_model, spec, _what="model construction", _tags=c.tags)
+    if case.get("rejected_dim") and all(0.1 < float(a) < 0.9 for a in c.model.anis):
+        with common.quiet():
+            c.model.set_arg_bounds(check_args=False, anis=[0.1, 0.9])
+            try:
+                c.model.dim = c.dim + 1
+                refused = False
+            except ValueError:
+                refused = True
+        require(refused and c.model.dim == c.dim, f"model.dim = {c.dim + 1} with anis bounds [0.1, 0.9] was not refused cleanly (dim now {c.model.dim})", dict(c.tags, kind="dim_not_refused"))
+        c.tags["after_refused_dim"] = True
     m = c.model
     c.var = float(spec["var"])
     # scale of the correlation (only places nodes / windows; not part of the oracle's truth)
